@@ -28,7 +28,7 @@ class C19(Prop):
     pkg = "hcore"
     binname = "c19"
     quick_cases = 2400
-    thorough_cases = 40000
+    thorough_cases = 20000
     shard = 150
     rule = ("random histories (1..45 ops, plus occasional bursts of 65..140 records into one histogram to cross bucket "
             "block boundaries) of Describe/Register/Upd/Snapshot over one (60%) or two recorder instances; 2..4 base "
